@@ -345,6 +345,10 @@ def run(P, R, L):
     ord5_manifest_before_current(P, R, L)
     R.clause("ROLE-4", "the WAL numbers recorded in every version edit come from the version set's own counters (they decide which WALs are garbage)")
     K.role4_counters(P, R, L)
+    R.clause("GRD-20", "an existing database is never re-initialised because CURRENT could not be opened for a reason other than NotFound")
+    K.grd20_create_only_when_missing(P, R, L)
+    R.clause("GRD-21", "a failed manifest write removes only a manifest created by that very call, never the live one CURRENT names")
+    K.grd21_manifest_cleanup(P, R, L)
     R.not_decided += ["directory contents for a concrete history", "crash-orphan collection beyond the guards"]
     R.assumptions += ["only the background thread and DB::open run remove_obsolete_files (single deleter)",
                       "a version handle dropped while the mutex was held continuously since acquisition is still current and is "
